@@ -132,4 +132,8 @@ def memoHandler (f : String → Nat) : Handler (List (String × Nat)) Nat String
   | some e => (mem, st + e.2, e.2)
   | none => ((k, f k) :: mem, st + f k, f k)
 
+/-- memory = a value of the process environment (an address the allocator chose, a goroutine id, `$HOME`): a handler
+that formats it into its output and state -/
+def envLeakHandler : Handler Nat Nat String Nat := fun env st _ => (env, st + env % 7, env)
+
 end FxVerif.Model.C17
